@@ -4,6 +4,7 @@ import (
 	"fmt"
 	"os"
 	"strconv"
+	"strings"
 	"syscall"
 )
 
@@ -24,20 +25,29 @@ func Launcher() {
 		fmt.Fprintln(os.Stderr, "launcher: no program")
 		os.Exit(97)
 	}
-	if len(spec) > 6 && spec[:6] == "fsize:" {
-		n, err := strconv.ParseUint(spec[6:], 10, 64)
-		if err != nil {
-			os.Exit(97)
+	for _, part := range strings.Split(spec, ",") {
+		switch {
+		case strings.HasPrefix(part, "fsize:"):
+			n, err := strconv.ParseUint(part[6:], 10, 64)
+			if err != nil {
+				os.Exit(97)
+			}
+			// the Go runtime ignores SIGXFSZ, so the program under test sees
+			// an ordinary EFBIG write error at that offset of its output file
+			lim := syscall.Rlimit{Cur: n, Max: n}
+			if err := syscall.Setrlimit(syscall.RLIMIT_FSIZE, &lim); err != nil {
+				fmt.Fprintln(os.Stderr, "launcher: setrlimit:", err)
+				os.Exit(97)
+			}
+		case strings.HasPrefix(part, "umask:"):
+			n, err := strconv.ParseUint(part[6:], 8, 32)
+			if err != nil {
+				os.Exit(97)
+			}
+			syscall.Umask(int(n))
+		case part == "closed-stdout":
+			syscall.Close(1)
 		}
-		// ignore SIGXFSZ so writes fail with EFBIG instead of killing the process
-		lim := syscall.Rlimit{Cur: n, Max: n}
-		if err := syscall.Setrlimit(syscall.RLIMIT_FSIZE, &lim); err != nil {
-			fmt.Fprintln(os.Stderr, "launcher: setrlimit:", err)
-			os.Exit(97)
-		}
-	}
-	if spec == "closed-stdout" {
-		syscall.Close(1)
 	}
 	if err := syscall.Exec(args[0], args, os.Environ()); err != nil {
 		fmt.Fprintln(os.Stderr, "launcher: exec:", err)
